@@ -62,6 +62,20 @@ pub async fn run_as(session: &Session, command: &str) -> Result<Response, String
     Ok(session.execute(parsed, &request, &request.operations[0]).await)
 }
 
+/// The same with operation parameters (mutation endpoints resolve from parameters, not patterns).
+pub async fn run_params(session: &Session, command: &str, params: Value) -> Result<Response, String> {
+    let request: Request = serde_json::from_value(json!({
+        "kip": "2.0",
+        "operations": [{"command": command, "parameters": params}]
+    }))
+    .map_err(|e| format!("request: {e}"))?;
+    let parsed = match anda_kip::parse_kip(command) {
+        Ok(p) => p,
+        Err(e) => return Err(format!("parse: {e}")),
+    };
+    Ok(session.execute(parsed, &request, &request.operations[0]).await)
+}
+
 pub fn error_code(response: &Response) -> String {
     response
         .error
